@@ -137,6 +137,7 @@ prop("C18", "slcheck",
 prop("C19", "nitrocheck",
      [dict(name="TestC19", quick=700, thorough=50000, thorough_shards=8),
       dict(name="TestC19KV", quick=2000, thorough=300000, thorough_shards=8),
+      dict(name="TestC19Conc", quick=150, thorough=3000, thorough_shards=2),
       dict(name="FuzzC19Decode", fuzz=90),
       dict(name="FuzzC19KV", fuzz=60)],
      rule="Item sequences (0-12 items; lengths biased to 1-40 with spikes at 255/256/257/65535/65536/65537 and up to 200 KiB; contents biased to zero runs, "
@@ -144,7 +145,8 @@ prop("C19", "nitrocheck",
           "then end-of-stream, reader checksum == writer checksum == independent XOR-of-CRC32 formula; (b) harness-framed older format (2-byte length) -> reader(v0); "
           "(c) EncodeItem/DecodeItem through a buffer, byte layout == [4-byte BE length][bytes]. TestC19KV: keys 0-65535 bytes / arbitrary values: KVFromBytes(KVToBytes) "
           "identity and sign(CompareKV) == sign(bytes.Compare(keys)) in both argument orders. Non-trivial: >=2 items, or an item >= 65536 bytes, or >=4 zero bytes "
-          "(KV: both keys non-empty with different lengths, equal keys, or a key >= 256 bytes). Distinct = hash of the rendered input.",
+          "(KV: both keys non-empty with different lengths, equal keys, or a key >= 256 bytes). Distinct = hash of the rendered input. TestC19Conc: 2-4 file writers "
+          "used concurrently from their own goroutines (items of different lengths per writer, 200-3000 items), each file read back and compared, checksums three ways.",
      technique="round-trip and differential (independent checksum / layout) property-based testing",
      design_ref="DESIGN.md §3 C19",
      level_text="Generated inputs with round-trip, layout and independent-checksum oracles through the real file writer/reader (verif accessors).",
@@ -183,12 +185,16 @@ prop("C13", "slcheck",
      level_note=SCHED_NOTE)
 
 prop("C14", "slcheck",
-     [dict(name="TestC14", quick=12000, thorough=300000, thorough_shards=16, env=G1)],
+     [dict(name="TestC14", quick=12000, thorough=300000, thorough_shards=12, env=G1),
+      dict(name="TestC14Store", pkg="nitrocheck", quick=300, thorough=5000, thorough_shards=4, steps=30)],
      rule="C13's concurrent generator (contended inserts/deletes under generated schedules, both memory modes) followed by a sequential phase, with the structural predicate "
           "run at both quiescent points: per level the unmarked chain head->tail is strictly increasing and acyclic, is a subsequence of the level below, no node above its "
           "height or above the list level, every live node linked at all levels up to its height; statistics (per-height node counts, soft deletes, memory in use, "
           "allocs-frees vs allocator live set) equal what the walk measures. The same predicate also runs inside C13, C15, C18 (builder output) and C04 layer A. "
-          "Non-trivial: the concurrent phase contained two overlapping deletes of one key/node. Distinct = hash of (scripts, schedule, sequential phase).",
+          "Non-trivial: the concurrent phase contained two overlapping deletes of one key/node. Distinct = hash of (scripts, schedule, sequential phase). "
+          "TestC14Store (structures produced by LoadFromDisk): C05's backup/restore histories; every restored store is walked (same predicate, items ordered by key then "
+          "version) and its statistics incl. memory are compared with the walk and with the model, right after the restore and after further operations; the builder's "
+          "output is walked in C18 (with drawn item-size functions).",
      technique="generated scripts + schedules under a controlled scheduler, structural invariant walk vs statistics",
      design_ref="DESIGN.md §3 C14",
      level_text="Invariant over the reachable structure checked at generated quiescent points.",
